@@ -17,26 +17,10 @@ import FpgoVerif.Gen.C10Facts
     subscription order, so `<` on ids is subscription order. -/
 namespace FpgoVerif.C10
 
-theorem reach_of_run (grow : Nat → Nat) (acts : List Act) :
-    ∀ s0 s, Reach grow s0 → run true grow s0 acts = some s → Reach grow s := by
-  induction acts with
-  | nil => intro s0 s r h; simp [run] at h; exact h ▸ r
-  | cons a as ih =>
-    intro s0 s r h
-    simp only [run] at h
-    cases hs : step true grow s0 a with
-    | none => rw [hs] at h; cases h
-    | some s1 => rw [hs] at h; exact ih s1 s (Reach.step a r hs) h
-
 /-- the driver's executions are `Reach`able: running any action list with `step true` from `init` -/
 theorem C10_run_reach (grow : Nat → Nat) (acts : List Act) (s : State)
     (h : run true grow init acts = some s) : Reach grow s :=
   reach_of_run grow acts init s .init h
-
-theorem count_of_sorted {l : List Nat} (h : l.Pairwise (· < ·)) (x : Nat) :
-    l.count x = if x ∈ l then 1 else 0 := by
-  have hnd : l.Nodup := h.imp (fun hab => Nat.ne_of_lt hab)
-  exact hnd.count
 
 /-- **Key lemma**: while a Publish is running, the cells its snapshot header denotes are never
     overwritten — `append` writes only at index ≥ the snapshot length or into a fresh array, the
